@@ -650,7 +650,7 @@ func gen(r *vf.Rand) c12Case {
 		}
 	}
 
-	// configuration files: make the precondition override (finding C12-F4) and precondition failures frequent
+	// configuration files: make the precondition override (repaired finding C12-F4) and precondition failures frequent
 	if c.File && r.Chance(50) {
 		c.R.Precond = vf.Pick(r, []int{418, 422, 400, 499, 300, 999})
 
@@ -719,9 +719,10 @@ func corpus() []c12Case {
 		{R: respond{Authn: -5}, Req: get(), E: node{K: "s", Kind: "authn"}, Sc: fail()},
 		// C12-F2: override below 100 (HTTP panics, gRPC sends 50)
 		{R: respond{NoRule: 50}, Req: get(), E: node{K: "c", Sub: []node{{K: "s", Kind: "norule"}}}, Sc: fail()},
-		// C12-F2: redirect code 0 built by hand
+		// C12-F5: redirect code 0 built by hand
 		{Req: get(), E: node{K: "r", Code: 0, To: "http://a"}, Sc: fail()},
-		// C12-F4 witness: precondition_error.code: 418 in a configuration file is accepted and ignored
+		// regression witness for the repair of C12-F4 (ed62adc): precondition_error.code: 418 from a configuration file arrives
+		// (VERIF_C12_FX="false false" expects the old behaviour: accepted and ignored, 400)
 		{R: respond{Precond: 418}, File: true, Req: get(), E: arg, Sc: fail()},
 		// ... the other overrides arrive from a file; so does verbose
 		{R: respond{Verbose: true, Authn: 419, Authz: 420, Comm: 421, NoRule: 422, Internal: 423}, File: true, Req: getAccept("application/json"),
